@@ -183,9 +183,25 @@ class Interp:
         return p
 
     # ================================================================= obligations
+    def kf_regions(self):
+        if not hasattr(self, "_kf"):
+            import json, os
+            try:
+                self._kf = json.loads(os.environ.get("VERIF_KF_REGIONS", "{}"))
+            except Exception:
+                self._kf = {}
+        return self._kf
+
     def oblige(self, st: State, name: str, goal, kind: str, assume_after=True, meta=None):
         if isinstance(goal, bool):
             goal = z3.BoolVal(goal)
+        reg = self.kf_regions().get(name)
+        if reg:
+            # a known finding (committed in known_findings.json) restricts the obligation to the complement of its region;
+            # the contract text itself is unchanged, and any failure outside the region is still reported
+            import ast as _ast
+            r = self.truthy(st, self.ev_spec(st, _ast.parse(reg, mode="eval").body))
+            goal = z3.Implies(z3.Not(r), goal)
         g = z3.simplify(goal)
         m = {"trail": "/".join(st.trail[-12:]), "_splits": list(st.ghost.get("__splits", [])), "_terms": list(st.index_terms)}
         if meta:
